@@ -21,8 +21,25 @@ type Outcome struct {
 
 // Script renders the satisfiability query whose unsatisfiability proves the obligation.
 func (x *Exec) Script(o *Obligation, withModel bool) string {
-	asserts := relevantHyps(o)
-	asserts = append(asserts, o.PC)
+	return x.script(o, withModel, false)
+}
+
+// familyKind: closure-family obligations carry the whole creation path of the compile function in
+// their path condition. They are first tried with only the hypotheses connected to the goal
+// (dropping hypotheses is sound; a bit-vector goal is then not mixed with floating-point facts),
+// and with everything if that does not prove them.
+func familyKind(o *Obligation) bool {
+	return o.Kind == "closure" || o.Kind == "alias" || o.Kind == "delegated" || o.Kind == "delegated-requires"
+}
+
+func (x *Exec) script(o *Obligation, withModel, focused bool) string {
+	var asserts []*smt.Term
+	if focused {
+		asserts = goalDirected(o)
+	} else {
+		asserts = relevantHyps(o)
+		asserts = append(asserts, o.PC)
+	}
 	if o.Expect != "sat" {
 		asserts = append(asserts, x.B.Not(o.Goal))
 	}
@@ -38,8 +55,9 @@ func (x *Exec) Script(o *Obligation, withModel bool) string {
 
 // Prepared is an obligation with its query text, ready to be solved concurrently.
 type Prepared struct {
-	Ob     *Obligation
-	Script string
+	Ob      *Obligation
+	Focused string // goal-directed query tried first (closure families); "" if none
+	Script  string
 	Quick  string // "" or a status decided without a solver
 }
 
@@ -71,6 +89,9 @@ func (x *Exec) Prepare(o *Obligation) *Prepared {
 		}
 	}
 	p.Script = x.Script(o, true)
+	if familyKind(o) {
+		p.Focused = x.script(o, false, true)
+	}
 	return p
 }
 
@@ -85,6 +106,16 @@ func Solve(p *Prepared, timeout time.Duration, thorough bool) *Outcome {
 	t0 := time.Now()
 	var best smt.Result
 	var all []smt.Result
+	if p.Focused != "" && p.Ob.Expect != "sat" {
+		fb, fall := smt.Race(p.Focused, timeout, smt.AllSolvers)
+		if fb.Status == "unsat" {
+			out.Secs = time.Since(t0).Seconds()
+			out.Results = fall
+			out.By = fb.Solver + " (focused)"
+			out.Status = "discharged"
+			return out
+		}
+	}
 	if thorough {
 		all = smt.RunAll(p.Script, timeout, smt.AllSolvers)
 		best.Status = "unknown"
@@ -165,9 +196,6 @@ func SolveAll(ps []*Prepared, timeout time.Duration, thorough bool, workers int)
 func (x *Exec) entailed(pc, goal *smt.Term) bool {
 	if goal.IsTrue() || pc.IsFalse() {
 		return true
-	}
-	if goal.IsFalse() {
-		return false
 	}
 	o := &Obligation{Name: "side-condition", Hyps: append([]*smt.Term{}, x.assumes...), PC: pc, Goal: goal, Expect: "unsat"}
 	best, _ := smt.Race(x.Script(o, false), 2*time.Second, smt.AllSolvers)
